@@ -28,6 +28,14 @@ Definition ok_xmm (before after : list (Z * Z)) : bool :=
   list_eqb pair_eqb (firstn 8 before) (firstn 8 after).
 Definition xlist (x : xfile) : list (Z * Z) := map x (seq 0 16).
 Definition xof (l : list (Z * Z)) : xfile := fun i => nth i l (0, 0).
+(* 256-bit registers *)
+Definition yreg_eqb (a b : yreg) : bool := pair_eqb (fst a) (fst b) && pair_eqb (snd a) (snd b).
+Definition ylist (x : yfile) : list yreg := map x (seq 0 16).
+Definition yof (l : list yreg) : yfile := fun i => nth i l ((0, 0), (0, 0)).
+(* what must come back: all of ymm0-7 with AVX, bits 0-127 of xmm0-7 without *)
+Definition ok_ymm (avx : bool) (before after : list yreg) : bool :=
+  if avx then list_eqb yreg_eqb (firstn 8 before) (firstn 8 after)
+  else list_eqb pair_eqb (map fst (firstn 8 before)) (map fst (firstn 8 after)).
 
 (* ------------------------------------------------------------------ the tie's bookkeeping *)
 Fixpoint bad_indices {A} (f : A -> bool) (l : list A) (i : nat) : list nat :=
@@ -88,17 +96,17 @@ Definition shadow_ok (c : shadow_case) : bool :=
      end.
 
 (* arch-context case: xmm0-15 before, the clobber, and what the real pair left *)
-Record xmm_case := { xc_before : list (Z * Z); xc_clobber : list (Z * Z); xc_after : list (Z * Z) }.
+Record xmm_case := { xc_avx : bool; xc_before : list yreg; xc_clobber : list yreg; xc_after : list yreg }.
 Definition xmm_agrees (c : xmm_case) : bool :=
-  list_eqb pair_eqb (xlist (arch_roundtrip_now (xof (xc_before c)) (fun _ => 0) (xof (xc_clobber c)))) (xc_after c).
-Definition xmm_ok (c : xmm_case) : bool := ok_xmm (xc_before c) (xc_after c).
+  list_eqb yreg_eqb (ylist (arch_roundtrip_now (xc_avx c) (yof (xc_before c)) (fun _ => 0) (yof (xc_clobber c)))) (xc_after c).
+Definition xmm_ok (c : xmm_case) : bool := ok_ymm (xc_avx c) (xc_before c) (xc_after c).
 
 (* hook-call case: xmm0..15 when the stub calls the C wrapper, and when the wrapper returns, while a libc
    function reached from the hook overwrites every xmm register *)
 Record hook_xmm_case := { hx_hook : string; hx_before : list (Z * Z); hx_after : list (Z * Z) }.
 Definition w_ones : world :=
   {| w_regs := fun _ _ => 0; w_mem := fun _ _ => 0; w_zf := fun _ => false; w_glob := fun _ _ => 0;
-     w_xmm := fun _ _ => (18446744073709551615, 18446744073709551615); w_ctx := fun _ _ => 0 |}.
+     w_xmm := fun _ _ => (18446744073709551615, 18446744073709551615); w_ctx := fun _ _ => 0; w_avx := true |}.
 Definition hook_xmm_agrees (c : hook_xmm_case) : bool :=
   list_eqb pair_eqb (firstn 8 (xlist (c_call_xmm w_ones (hx_hook c) 0 (xof (hx_before c))))) (firstn 8 (hx_after c)).
 Definition hook_xmm_ok (c : hook_xmm_case) : bool := ok_xmm (hx_before c) (hx_after c).
